@@ -3,6 +3,7 @@ package c15
 
 import (
 	"encoding/json"
+	"errors"
 	"fmt"
 	"io"
 	"os"
@@ -15,7 +16,7 @@ import (
 	"verif/harness/ev"
 )
 
-const rule = "cases = histories over {WriteLevel(level, line), Trigger, Close, new writer instance} with levels from the whole int8 range except 10, ConditionalLevel/TriggerLevel in any order, lines = arbitrary bytes without interior newline + newline (lengths crossing the 1 KiB initial buffer and the buffer reuse limit), destination LevelWriter or plain io.Writer; exhaustive for histories <=5 (<=6 thorough) over 4 levels; rapid beyond; concurrent goroutines (race build). oracle = TriggerLevelWriter reference model. non-trivial = history with >=2 held lines of different levels followed by a trigger; distinct by construction / FNV-64"
+const rule = "cases = histories over {WriteLevel(level, line), Trigger, Close, new writer instance} with levels from the whole int8 range except 10, ConditionalLevel/TriggerLevel in any order, lines = arbitrary bytes without interior newline + newline (lengths crossing the 1 KiB initial buffer and the buffer reuse limit), destination LevelWriter or plain io.Writer; exhaustive for histories <=5 (<=6 thorough) over 4 levels; rapid beyond; concurrent goroutines (race build); fault histories in which the destination refuses chosen calls (oracle there: the accepted lines are a subsequence of the fault-free delivery). oracle = TriggerLevelWriter reference model. non-trivial = history with >=2 held lines of different levels followed by a trigger; distinct by construction / FNV-64"
 
 var rec = ev.New("C15", rule)
 
@@ -37,6 +38,9 @@ type Case struct {
 	Trig  int  `json:"trigger"`
 	Plain bool `json:"plain_destination,omitempty"`
 	Ops   []Op `json:"ops"`
+	// FailAt lists the destination calls (0-based, counted per destination) that return an error
+	// instead of accepting the line (fault histories, judged by runFaults)
+	FailAt []int `json:"fail_at,omitempty"`
 }
 
 type out struct {
@@ -45,21 +49,28 @@ type out struct {
 }
 
 type dest struct {
-	log   []out
-	plain bool
+	log    []out
+	plain  bool
+	calls  int
+	failAt map[int]bool
 }
 
-func (d *dest) Write(p []byte) (int, error) {
-	d.log = append(d.log, out{-100, string(p)})
+var errDest = errors.New("destination refused the line")
+
+func (d *dest) Write(p []byte) (int, error) { return d.take(-100, p) }
+
+func (d *dest) take(l int, p []byte) (int, error) {
+	d.calls++
+	if d.failAt[d.calls-1] {
+		return 0, errDest
+	}
+	d.log = append(d.log, out{l, string(p)})
 	return len(p), nil
 }
 
 type ldest struct{ *dest }
 
-func (d ldest) WriteLevel(l zerolog.Level, p []byte) (int, error) {
-	d.log = append(d.log, out{int(l), string(p)})
-	return len(p), nil
-}
+func (d ldest) WriteLevel(l zerolog.Level, p []byte) (int, error) { return d.take(int(l), p) }
 
 type inst struct {
 	d         *dest
@@ -155,6 +166,76 @@ func run(c *Case) (string, bool) {
 		x.tw.Close()
 	}
 	return "", nontrivial
+}
+
+// runFaults judges a history in which the destination refuses some calls. The statement does not say
+// what a refused line costs, so only what it does say under any outcome is required: the lines
+// the destination ACCEPTED are a subsequence of what it would have received without faults — none
+// twice, none altered, none out of order, none invented — and nothing panics.
+func runFaults(c *Case) (string, bool) {
+	d := &dest{plain: c.Plain, failAt: map[int]bool{}}
+	for _, k := range c.FailAt {
+		d.failAt[k] = true
+	}
+	var w io.Writer = ldest{d}
+	if c.Plain {
+		w = d
+	}
+	mk := func() *zerolog.TriggerLevelWriter {
+		return &zerolog.TriggerLevelWriter{Writer: w, ConditionalLevel: zerolog.Level(c.Cond), TriggerLevel: zerolog.Level(c.Trig)}
+	}
+	tw := mk()
+	var want, held []out
+	triggered := false
+	lv := func(l int) int {
+		if c.Plain {
+			return -100
+		}
+		return l
+	}
+	failed := 0
+	for _, op := range c.Ops {
+		switch op.K {
+		case "w":
+			if _, err := tw.WriteLevel(zerolog.Level(op.L), op.Line); err != nil {
+				failed++
+			}
+			if !triggered && op.L >= c.Trig {
+				want, held, triggered = append(want, held...), nil, true
+			}
+			if !triggered && op.L <= c.Cond {
+				held = append(held, out{lv(op.L), string(op.Line)})
+			} else {
+				want = append(want, out{lv(op.L), string(op.Line)})
+			}
+		case "trigger":
+			if err := tw.Trigger(); err != nil {
+				failed++
+			}
+			if !triggered {
+				want, held, triggered = append(want, held...), nil, true
+			}
+		case "close":
+			tw.Close()
+			held = nil
+		case "new":
+			tw.Close()
+			tw = mk()
+			held, triggered = nil, false
+		}
+	}
+	tw.Close()
+	j := 0
+	for i, got := range d.log {
+		for j < len(want) && want[j] != got {
+			j++
+		}
+		if j == len(want) {
+			return fmt.Sprintf("accepted line %d (%+v) is not the continuation of a subsequence of the fault-free delivery: duplicated, altered, reordered or invented; accepted %v, fault-free %v", i, trunc(got), tail(d.log[:i+1]), tail(want)), failed > 0
+		}
+		j++
+	}
+	return "", failed > 0 && len(d.log) > 0
 }
 
 func trunc(o out) out {
@@ -300,6 +381,34 @@ func TestRapid(t *testing.T) {
 		}
 		if msg != "" {
 			fail(rt, "rapid", c, msg)
+		}
+	})
+}
+
+func TestRapidFaults(t *testing.T) {
+	rapid.Check(t, func(rt *rapid.T) {
+		c := &Case{Cond: rapid.SampledFrom([]int{-1, 0, 1, 2}).Draw(rt, "cond"), Trig: rapid.SampledFrom([]int{1, 2, 3, 4, 0}).Draw(rt, "trig"), Plain: rapid.IntRange(0, 3).Draw(rt, "plain") == 0}
+		n := rapid.IntRange(2, 30).Draw(rt, "nops")
+		for i := 0; i < n; i++ {
+			switch k := rapid.SampledFrom([]string{"w", "w", "w", "w", "w", "w", "trigger", "close", "new"}).Draw(rt, "op"); k {
+			case "w":
+				// unique lines, so that a second delivery cannot pass for another line
+				line := []byte(fmt.Sprintf("line-%d-%s\n", i, rapid.StringMatching(`[a-z]{0,6}`).Draw(rt, "txt")))
+				c.Ops = append(c.Ops, Op{K: "w", L: rapid.IntRange(-1, 5).Draw(rt, "lvl"), Line: line})
+			default:
+				c.Ops = append(c.Ops, Op{K: k})
+			}
+		}
+		nf := rapid.IntRange(1, 4).Draw(rt, "nfail")
+		for i := 0; i < nf; i++ {
+			c.FailAt = append(c.FailAt, rapid.IntRange(0, n).Draw(rt, "failat"))
+		}
+		msg, nt := runFaults(c)
+		b, _ := json.Marshal(c)
+		rec.Case(b, nt, "fault-history")
+		rec.Sample(json.RawMessage(b))
+		if msg != "" {
+			fail(rt, "faults", c, msg)
 		}
 	})
 }
@@ -479,6 +588,12 @@ func TestReplay(t *testing.T) {
 	}
 	var c Case
 	json.Unmarshal(b, &c)
+	if len(c.FailAt) > 0 {
+		if msg, _ := runFaults(&c); msg != "" {
+			fail(t, "replay", &c, msg)
+		}
+		return
+	}
 	if msg, _ := run(&c); msg != "" {
 		fail(t, "replay", &c, msg)
 	}
